@@ -4,7 +4,7 @@
     unit `connaccept`. [tagf] is the Retry integrity tag function (AES-128-GCM in the code): every
     theorem holds for every such function. Only statements live here. *)
 From Coq Require Import List ZArith Bool.
-From V Require Import Gen.Params Lib.Hex ConnAccept.Model ConnAccept.Proofs ServerAccept.Model ServerAccept.Proofs.
+From V Require Import Gen.Params Lib.Hex ConnAccept.Model ConnAccept.Proofs ServerAccept.Model ServerAccept.Proofs EarlyData.Model EarlyData.Proofs.
 Import ListNotations.
 Open Scope Z_scope.
 
@@ -260,3 +260,36 @@ Example C13_server_example :
     SDrop false; SDrop false; SQueuedVN; SDrained [(0, 3, [], [])] ].
 Proof. vm_compute. reflexivity. Qed.
 Print Assumptions C13_server_example.
+
+(** ---- 0-RTT data (model EarlyData; proof-level, tied to the code by the simhandshake 0-RTT scenarios) ---- *)
+
+(** C13_0rtt_reject_clean. If the server rejects early data, then for every sequence of application writes,
+    packetisations, losses (with retransmission), duplicated / delayed deliveries and whenever the answer arrives:
+    every stream frame handed to the server application was written after the rejection (generation 1: on the
+    re-initialised stream maps, i.e. re-sent by the application as 1-RTT data). None of the 0-RTT bytes. *)
+Theorem C13_0rtt_reject_clean : forall ops f, In f (srv (erun false e0 ops)) -> fgen f = 1.
+Proof. exact reject_clean. Qed.
+Print Assumptions C13_0rtt_reject_clean.
+
+(** ... and as long as the client has not learnt of the rejection the server application gets nothing. *)
+Theorem C13_0rtt_reject_nothing_before : forall ops,
+  decided (erun false e0 ops) = None -> srv (erun false e0 ops) = [].
+Proof. exact reject_nothing_before. Qed.
+Print Assumptions C13_0rtt_reject_nothing_before.
+
+(** Accepted or rejected: only frames the client application wrote are ever handed over (each byte offset at most
+    once to the reader is the receive stream's reassembly, C03 / C01). *)
+Theorem C13_0rtt_only_written : forall a ops f, In f (srv (erun a e0 ops)) -> In f (written (erun a e0 ops)).
+Proof. exact only_written. Qed.
+Print Assumptions C13_0rtt_only_written.
+
+Example C13_0rtt_example :
+  (* rejected: the early frame goes out twice (PTO), both copies arrive and are useless; after the answer the
+     application writes again, that frame is delivered *)
+  srv (erun false e0 [EWrite 0 0 100; EPack 1 1; ELost 1; EPack 2 1; EDeliver 1; EDeliver 2; EDecide false;
+                      EWrite 0 0 50; EPack 3 1; EDeliver 3; EDeliver 1]) = [(1, 0, 0, 50)] /\
+  (* accepted: the early frame is delivered from its 0-RTT packet, a late duplicate hands it over again
+     (the receive stream discards the duplicate) *)
+  srv (erun true e0 [EWrite 0 0 100; EPack 1 1; EDeliver 1; EDecide true; EDeliver 1]) = [(0, 0, 0, 100); (0, 0, 0, 100)].
+Proof. split; vm_compute; reflexivity. Qed.
+Print Assumptions C13_0rtt_example.
